@@ -287,6 +287,28 @@ inductive JOp where
   | barrier (src : Nat) (grp : String) (t : Int)
 deriving Repr
 
+/-- The group an arrival belongs to. -/
+def JOp.grp : JOp → String
+  | .point _ m => m.grp
+  | .barrier _ g _ => g
+
+/-- The parent an arrival comes from. -/
+def JOp.srcOf : JOp → Nat
+  | .point s _ => s
+  | .barrier s _ _ => s
+
+/-- The (unrounded) time of an arrival. -/
+def JOp.rawTime : JOp → Int
+  | .point _ m => m.time
+  | .barrier _ _ t => t
+
+/-- The points among the arrivals, with their parent. -/
+def pointsOf (ops : List JOp) : List (Nat × JMsg) :=
+  ops.filterMap (fun op => match op with | .point src m => some (src, m) | .barrier _ _ _ => none)
+
+/-- (parent, group, time) of every arrival, points and barriers. -/
+def stepsOf (ops : List JOp) : List (Nat × String × Int) := ops.map (fun op => (op.srcOf, op.grp, op.rawTime))
+
 namespace JNode
 def step (cfg : JCfg) (nd : JNode) : JOp → JNode × List (JSet JMsg) × Status
   | .point src m => nd.point cfg src m
